@@ -74,6 +74,7 @@ type State struct {
 	wgs     map[string]int // sync.WaitGroup counters
 	inTask  int            // > 0 while a spawned task is running
 	goCount int // number of `go` statements executed since verifGoReset; -1 = counting is off (go is unsupported)
+	split   string           // verifConcretize case-split key: states with different keys are never merged again
 }
 
 type obsEntry struct {
@@ -82,7 +83,7 @@ type obsEntry struct {
 }
 
 func (s *State) clone() *State {
-	n := &State{eng: s.eng, dead: s.dead, why: s.why, lastRet: s.lastRet, curKey: s.curKey, subAlloc: s.subAlloc, goCount: s.goCount, keyAct: s.keyAct, keyVisit: s.keyVisit, keyInstr: s.keyInstr}
+	n := &State{eng: s.eng, dead: s.dead, why: s.why, lastRet: s.lastRet, curKey: s.curKey, subAlloc: s.subAlloc, goCount: s.goCount, split: s.split, keyAct: s.keyAct, keyVisit: s.keyVisit, keyInstr: s.keyInstr}
 	n.allocLog = append([]int(nil), s.allocLog...)
 	n.heap = make(map[int]Value, len(s.heap))
 	for k, v := range s.heap {
@@ -215,6 +216,8 @@ type Engine struct {
 	Samples     []string
 	NoValidate  bool
 	callDepth   int
+	splitSeq    int
+	MaxFailures int // stop the job after this many counterexamples outside known findings (0 = never)
 	Deadline    time.Time
 	axioms      map[string]bool
 	globalByID  map[int]*ssa.Global
@@ -310,7 +313,7 @@ func (e *Engine) arith(st *State, op string, x, y *Term) *Term {
 	} else {
 		r = BVBin(op, x, y)
 	}
-	if IntMode && r.Sort.Kind == 'V' && r.Sort.Width == 64 && !r.IsConst() && st != nil {
+	if IntMode && r.Sort.Kind == 'V' && r.Sort.Width == 64 && !r.IsConst() && r.ctLeaves() == 0 && st != nil { // constant trees: decided on the leaves (ctree.go)
 		st.ovf = append(st.ovf, inRange64(r))
 	}
 	return r
@@ -358,6 +361,9 @@ func (e *Engine) checkOverflow(st *State, where string) {
 }
 
 func (e *Engine) fail(st *State, kind, msg string) {
+	if kind == "panic" {
+		defer e.enough()
+	}
 	if len(st.pc) > 0 {
 		r := e.S.Check(st.pc, nil)
 		if r == Unsat {
@@ -444,7 +450,7 @@ func (e *Engine) explore(start *State, baseDepth int) (done []*State) {
 		}
 		first := true
 		for !st.dead && len(st.frames) > baseDepth {
-			if !first && len(st.frames) == baseDepth+1 && atJoin(st) && len(work) > 0 {
+			if !first && len(st.frames) == baseDepth+1 && atJoin(st) && mergeCandidate(work, st) {
 				// wait here: others may still arrive at this join
 				work = append(work, st)
 				st = nil
@@ -473,6 +479,18 @@ func (e *Engine) explore(start *State, baseDepth int) (done []*State) {
 		}
 	}
 	return done
+}
+
+// mergeCandidate reports whether some waiting state could still be merged with st at a join: same case-split key
+// (verifConcretize). A state whose key is unique runs on without waiting, which keeps the incremental solver's
+// assertion stack on one path instead of switching between hundreds of unmergeable siblings at every loop header.
+func mergeCandidate(work []*State, st *State) bool {
+	for _, o := range work {
+		if o.split == st.split {
+			return true
+		}
+	}
+	return false
 }
 
 func (e *Engine) stepSafe(st *State) (forks []*State) {
@@ -1746,6 +1764,73 @@ func (e *Engine) index(st *State, fr *Frame, in *ssa.Index) []*State {
 	return nil
 }
 
+// forkSliceBounds handles x[lo:hi:max] with a non-constant bound: the out-of-range case is recorded as a panic
+// obligation (with its model), then the state is split over every feasible in-range value of the first symbolic
+// bound. ip is not advanced, so the Slice instruction runs again (and splits on the next symbolic bound, if any).
+func (e *Engine) forkSliceBounds(st *State, fr *Frame, in *ssa.Slice) ([]*State, bool) {
+	limit := 0
+	switch c := e.val(fr, in.X).(type) {
+	case StringVal:
+		if c.Atom != nil {
+			return nil, false
+		}
+		limit = len(c.Bytes)
+	case SliceVal:
+		limit = c.Cap
+	case PtrVal:
+		limit = int(in.X.Type().Underlying().(*types.Pointer).Elem().Underlying().(*types.Array).Len())
+	default:
+		return nil, false
+	}
+	for _, b := range []ssa.Value{in.Low, in.High, in.Max} {
+		if b == nil {
+			continue
+		}
+		t, ok := e.val(fr, b).(*Term)
+		if !ok || t.IsConst() {
+			continue
+		}
+		if _, isConst := b.(*ssa.Const); isConst {
+			continue
+		}
+		t = Resize(t, 64, true)
+		oob := Or(BVCmp("bvslt", t, ConstBV(0, 64)), BVCmp("bvsgt", t, ConstBV(uint64(limit), 64)))
+		if e.S.Check(st.pc, oob) != Unsat {
+			m, uf := e.modelNow()
+			e.S.EndModel()
+			e.Failures = append(e.Failures, Failure{Kind: "panic", Msg: fmt.Sprintf("slice bounds out of range (symbolic bound) with length/capacity %d", limit), Where: fr.fn.String(), Model: m, UF: uf, Stack: e.failStack(st)})
+			st.pc = append(st.pc, Not(oob))
+		} else {
+			e.S.EndModel()
+		}
+		var feas []int
+		for i := 0; i <= limit; i++ {
+			r := e.S.Check(st.pc, Eq(t, ConstBV(uint64(i), 64)))
+			e.S.EndModel()
+			if r != Unsat {
+				feas = append(feas, i)
+			}
+		}
+		if len(feas) == 0 {
+			st.dead = true
+			st.why = "no feasible slice bound"
+			return nil, true
+		}
+		var forks []*State
+		for k, i := range feas {
+			tgt := st
+			if k < len(feas)-1 {
+				tgt = st.clone()
+				forks = append(forks, tgt)
+			}
+			tgt.pc = append(tgt.pc, Eq(t, ConstBV(uint64(i), 64)))
+			tgt.top().regs[b] = ConstBV(uint64(i), 64)
+		}
+		return forks, true
+	}
+	return nil, false
+}
+
 func (e *Engine) sliceOp(st *State, fr *Frame, in *ssa.Slice) Value {
 	x := e.val(fr, in.X)
 	get := func(v ssa.Value, def int) int {
@@ -1814,7 +1899,30 @@ func (e *Engine) lookup(st *State, fr *Frame, in *ssa.Lookup) []*State {
 		}
 		idx := Resize(asTerm(e.val(fr, in.Index)), 64, true)
 		if !idx.IsConst() {
-			unsupported("symbolic string index")
+			// s[i] with a symbolic i over symbolic-bytes strings: bounds obligation, then an ite chain over the concrete length
+			if s.Atom != nil {
+				unsupported("symbolic index into an atom string")
+			}
+			oob := Or(BVCmp("bvslt", idx, ConstBV(0, 64)), BVCmp("bvsge", idx, ConstBV(uint64(len(s.Bytes)), 64)))
+			if e.S.Check(st.pc, oob) != Unsat {
+				m, uf := e.modelNow()
+				e.S.EndModel()
+				e.Failures = append(e.Failures, Failure{Kind: "panic", Msg: "string index out of range (symbolic)", Where: fr.fn.String(), Model: m, UF: uf, Stack: e.failStack(st)})
+			} else {
+				e.S.EndModel()
+			}
+			st.pc = append(st.pc, Not(oob))
+			if len(s.Bytes) == 0 {
+				st.dead = true
+				return nil
+			}
+			res := s.Bytes[len(s.Bytes)-1]
+			for i := len(s.Bytes) - 2; i >= 0; i-- {
+				res = Ite(Eq(idx, ConstBV(uint64(i), 64)), s.Bytes[i], res)
+			}
+			fr.regs[in] = res
+			fr.ip++
+			return nil
 		}
 		i := int(idx.Signed())
 		if i < 0 || i >= len(s.Bytes) {
